@@ -56,6 +56,7 @@ type Miner struct {
 
 // World is one simulated run.
 type World struct {
+	shareAs     string // set while a shared probe row runs: the property its verdicts are reported under
 	inProbe     bool
 	concSamples []concSample
 	noiseCtr    uint64
